@@ -156,6 +156,37 @@ func c08Env(config string) (*zygo.Zlisp, *zygo.Zlisp) {
 
 func denyAll(op string, args []string) bool { return false }
 
+// runCliSandbox: the command-line tool's own sandbox mode, in process: ReplMain -sandbox -no-liner -quiet with the
+// script on stdin (REPL lines, dot-commands included) or given with -c. Returns whether os.Exit was reached with a
+// status (the tool's normal way out, not a script's doing).
+func runCliSandbox(text string, viaC bool) {
+	exe, _ := os.Executable()
+	tmp := filepath.Join(filepath.Dir(exe), fmt.Sprintf("c08cli-%d", os.Getpid()))
+	os.MkdirAll(tmp, 0755)
+	defer os.RemoveAll(tmp)
+	cfg := zygo.NewZlispConfig("zygo")
+	cfg.DefineFlags()
+	args := []string{"-no-liner", "-quiet", "-sandbox"}
+	stdin := text
+	if viaC {
+		args = append(args, "-c", text)
+		stdin = ""
+	}
+	sf := filepath.Join(tmp, "stdin")
+	os.WriteFile(sf, []byte(stdin), 0644)
+	fh, err := os.Open(sf)
+	if err != nil {
+		return
+	}
+	defer fh.Close()
+	saved := os.Stdin
+	os.Stdin = fh
+	defer func() { os.Stdin = saved }()
+	cfg.Flags.Parse(args)
+	cfg.ValidateConfig()
+	zygo.ReplMain(cfg)
+}
+
 func execC08(body json.RawMessage) *kernel.Result {
 	var sc c08Scenario
 	res := &kernel.Result{}
@@ -172,8 +203,12 @@ func execC08(body json.RawMessage) *kernel.Result {
 	}
 	run := func(label, text string) {
 		text = realPaths(text)
-		env, rootEnv := c08Env(sc.Config)
-		defer closeQuietly(rootEnv)
+		isCli := strings.HasPrefix(sc.Config, "cli")
+		var env, rootEnv *zygo.Zlisp
+		if !isCli {
+			env, rootEnv = c08Env(sc.Config)
+			defer closeQuietly(rootEnv)
+		}
 		verifos.Reset()
 		res.Execs++
 		exited := ""
@@ -181,12 +216,25 @@ func execC08(body json.RawMessage) *kernel.Result {
 			defer func() {
 				if r := recover(); r != nil {
 					if ex, isExit := r.(verifos.ExitSentinel); isExit {
-						exited = fmt.Sprintf("os.Exit(%d)", ex.Code)
+						if !isCli {
+							exited = fmt.Sprintf("os.Exit(%d)", ex.Code)
+						}
+						// the command-line tool leaves through os.Exit by itself (end of input, -c): not a script's doing
+						return
+					}
+					if isCli {
+						res.Probe("cli-panicked") // C01's business
 						return
 					}
 					panic(r)
 				}
 			}()
+			if isCli {
+				kernel.SetBudget(100000)
+				defer kernel.SetBudget(-1)
+				runCliSandbox(text, sc.Config == "cli-c")
+				return
+			}
 			o := zy.Eval(env, text+" ", 100000)
 			if o.Budget {
 				res.Unbounded++
@@ -197,6 +245,9 @@ func execC08(body json.RawMessage) *kernel.Result {
 		}()
 		var crossed []string
 		for _, a := range verifos.Log {
+			if isCli && a.Op == "os.Exit" {
+				continue
+			}
 			if isCrossing(a.Op) {
 				crossed = append(crossed, a.Op+"("+strings.ReplaceAll(strings.Join(a.Args, ","), realCanaryDir, canaryDir)+")")
 			}
@@ -207,7 +258,7 @@ func execC08(body json.RawMessage) *kernel.Result {
 		if len(crossed) > 0 {
 			ops := map[string]bool{}
 			for _, a := range verifos.Log {
-				if isCrossing(a.Op) {
+				if isCrossing(a.Op) && !(isCli && a.Op == "os.Exit") {
 					ops[a.Op] = true
 				}
 			}
@@ -219,6 +270,9 @@ func execC08(body json.RawMessage) *kernel.Result {
 			cfg := "bare"
 			if strings.HasPrefix(sc.Config, "std") {
 				cfg = "std"
+			}
+			if isCli {
+				cfg = "cli"
 			}
 			fail(cfg+"|"+label+"|"+strings.Join(opl, "+"), "sandbox config %s: the script %q reached the outside world: %v", sc.Config, strings.ReplaceAll(text, realCanaryDir, canaryDir), crossed)
 		}
@@ -395,6 +449,40 @@ func genC08Sigils(r *kernel.RNG, tier string, i int) interface{} {
 	return sc
 }
 
+var c08DotCommands = []string{".cd @CANARYDIR@", ".cd /", ".dump", ".dump car", ".ls", ".gls", ".verb", ".debug", ".undebug", ".quit", ".cd", ".help"}
+
+// genC08Cli: lines for the tool's sandbox REPL: its dot-commands, outside-world names with canary arguments, restricted names
+func genC08Cli(r *kernel.RNG, tier string, i int) interface{} {
+	cfg := "cli"
+	if i%3 == 2 {
+		cfg = "cli-c"
+	}
+	names := nameUniverse("std")
+	restricted := restrictedNames()
+	var lines []string
+	for j := 0; j < 12; j++ {
+		switch r.Intn(5) {
+		case 0:
+			lines = append(lines, r.Pick(c08DotCommands))
+		case 1:
+			lines = append(lines, "("+r.Pick(restricted)+" "+r.Pick(c08ArgShapes)+")")
+		case 2:
+			lines = append(lines, "("+names[r.Intn(len(names))]+" "+r.Pick(c08ArgShapes)+")")
+		case 3:
+			lines = append(lines, r.Pick([]string{"& 1", "* 1", "(include \"" + canaryFile + "\")", "(sys echo hi)", "(req secret)", "(import \"" + canaryFile + "\")", "(exit 3)", "$" + canaryEnv}))
+		case 4:
+			lines = append(lines, "(+ 1 2)")
+		}
+	}
+	sc := &c08Scenario{Config: cfg, Name: "cli-lines"}
+	if cfg == "cli-c" {
+		sc.Text = strings.Join(lines, " ")
+	} else {
+		sc.Text = strings.Join(lines, "\n") + "\n"
+	}
+	return sc
+}
+
 func c08NameCount(tier string) int {
 	n := len(nameUniverse("std"))
 	per := 8
@@ -491,10 +579,16 @@ func init() {
 		Assume: []string{
 			"dependencies of package zygo are not instrumented; a real canary file, directory and environment variable are checked as a second line of defence",
 			"os.Getwd and ioutil.ReadAll on an already open reader are logged but not counted as crossings",
-			"cmd/zygo -sandbox differs from sandbox+StandardSetup only by REPL/CLI plumbing, exercised under C01",
+			"cmd/zygo -sandbox is exercised in process: ReplMain -sandbox -no-liner with the script on stdin (dot-commands included) or via -c; the tool's own os.Exit at end of input is not counted",
 		},
 		Parts: []*kernel.Part{
 			{Name: "names", Count: c08NameCount, Generate: genC08Names, Execute: execC08, Shrink: shrinkC08},
+			{Name: "cli", Count: func(tier string) int {
+				if tier == "thorough" {
+					return 900
+				}
+				return 90
+			}, Generate: genC08Cli, Execute: execC08, Shrink: shrinkC08, Isolated: true},
 			{Name: "sigils", Count: func(tier string) int {
 				if tier == "thorough" {
 					return 60
